@@ -94,7 +94,7 @@ func setDeservedResource(
 	resource rs.ResourceName,
 ) (remainingAmount float64) {
 	remainingAmount = totalResourceAmount
-	for _, queue := range queues {
+	for _, queue := range sortedQueues(queues) {
 		resourceShare := queue.ResourceShare(resource)
 		deserved := resourceShare.Deserved
 		if deserved == commonconstants.UnlimitedResourceQuantity {
@@ -143,6 +143,19 @@ func divideOverQuotaResource(totalResourceAmount, kValue float64, queues map[com
 	return remainingAmount
 }
 
+// sortedQueues returns the queues ordered by UID. Floating point sums and subtractions are not
+// associative, so the division must enumerate the queues in a fixed order for the fair share to be a
+// function of its inputs rather than of Go's map iteration order.
+func sortedQueues(queues map[common_info.QueueID]*rs.QueueAttributes) []*rs.QueueAttributes {
+	ids := maps.Keys(queues)
+	slices.Sort(ids)
+	ordered := make([]*rs.QueueAttributes, 0, len(ids))
+	for _, id := range ids {
+		ordered = append(ordered, queues[id])
+	}
+	return ordered
+}
+
 func getQueuesByPriority(queues map[common_info.QueueID]*rs.QueueAttributes) (map[int]map[common_info.QueueID]*rs.QueueAttributes, []int) {
 	queuesByPriority := map[int]map[common_info.QueueID]*rs.QueueAttributes{}
 	for id, queue := range queues {
@@ -164,6 +177,7 @@ func getQueuesByPriority(queues map[common_info.QueueID]*rs.QueueAttributes) (ma
 func divideUpToFairShare(totalResourceAmount, kValue float64, queues map[common_info.QueueID]*rs.QueueAttributes,
 	resourceName rs.ResourceName) (remainingAmount float64, remainingRequested map[common_info.QueueID]*remainingRequestedResource) {
 	remainingRequested = map[common_info.QueueID]*remainingRequestedResource{}
+	orderedQueues := sortedQueues(queues)
 
 	for {
 		shouldRunAnotherRound := false
@@ -174,7 +188,7 @@ func divideUpToFairShare(totalResourceAmount, kValue float64, queues map[common_
 			break
 		}
 
-		for _, queue := range queues {
+		for _, queue := range orderedQueues {
 			if totalResourceAmount == 0 {
 				log.InfraLogger.V(7).Infof("no more resources, exiting")
 				break
@@ -229,7 +243,7 @@ func calcShareWeights(queues map[common_info.QueueID]*rs.QueueAttributes, resour
 
 	shareWeightsPerQueue := make(map[common_info.QueueID]float64)
 	shareWeightsSum := 0.0
-	for _, queue := range queues {
+	for _, queue := range sortedQueues(queues) {
 		if isQueueSatisfied(queue, resourceName) {
 			continue
 		}
@@ -305,7 +319,7 @@ func getResourceToGiveInCurrentRound(fairShare float64, requested float64, queue
 }
 
 func getTotalWeightsForUnsatisfied(queues map[common_info.QueueID]*rs.QueueAttributes, resourceName rs.ResourceName) (totalOverQuotaWeights float64) {
-	for _, queue := range queues {
+	for _, queue := range sortedQueues(queues) {
 		remainingRequested := getRemainingRequested(queue, resourceName)
 		if remainingRequested > 0 {
 			totalOverQuotaWeights += queue.ResourceShare(resourceName).OverQuotaWeight
